@@ -11,9 +11,9 @@ EXTENDS PieMon, Json, IOUtils
 
 Rec == ndJsonDeserialize(IOEnv.TRACE)
 
-VARIABLES l, st, m, P, viol, kfs, summ, run
+VARIABLES l, st, m, viol, kfs, summ, run
 
-vars == <<l, st, m, P, viol, kfs, summ, run>>
+vars == <<l, st, m, viol, kfs, summ, run>>
 
 MkP(scn) ==
   LET nt == scn.nt
@@ -28,8 +28,13 @@ MkP(scn) ==
 
 NoP == [prog |-> <<>>, nt |-> 0, nr |-> 0, nv |-> 1, na |-> 1, fam |-> "", id |-> "", base |-> <<>>, exact |-> FALSE]
 
+\* the scenarios of all runs in the file, computed once (constant level)
+ResetLines == SelectSeq([i \in 1..Len(Rec) |-> i], LAMBDA i : Rec[i].ev = "reset")
+Ps == TLCEval([i \in DOMAIN ResetLines |-> TLCEval(MkP(Rec[ResetLines[i]].scn))])
+P == IF run = 0 THEN NoP ELSE Ps[run]
+
 Init ==
-  /\ l = 1 /\ P = NoP /\ st = StoreInit(0, 0, <<>>) /\ m = MonInit(NoP)
+  /\ l = 1 /\ st = StoreInit(0, 0, <<>>) /\ m = MonInit(NoP)
   /\ viol = {} /\ kfs = {} /\ summ = <<>> /\ run = 0
 
 Finish(v2, k2, s2) ==
@@ -40,15 +45,14 @@ Next ==
   /\ l' = l + 1
   /\ LET e == Rec[l] IN
      IF e.ev = "reset" THEN
-       /\ P' = MkP(e.scn)
        /\ st' = StoreInit(e.scn.nt, e.scn.nr, e.scn.init)
-       /\ m' = MonInit(P')
+       /\ m' = MonInit(Ps[run + 1])
        /\ run' = run + 1
        /\ UNCHANGED <<viol, kfs, summ>>
        /\ (l < Len(Rec) \/ Finish(viol, kfs, summ))
      ELSE IF e.ev = "end" THEN
        /\ summ' = Append(summ, [id |-> P.id, fam |-> P.fam, cnt |-> m.cnt])
-       /\ UNCHANGED <<P, st, m, viol, kfs, run>>
+       /\ UNCHANGED <<st, m, viol, kfs, run>>
        /\ (l < Len(Rec) \/ Finish(viol, kfs, summ'))
      ELSE
        LET r == MonStep(P, m, st, e) IN
@@ -56,7 +60,7 @@ Next ==
        /\ st' = StoreStep(st, e)
        /\ viol' = viol \cup {<<run, l, P.id, t[1], t[2]>> : t \in r.v}
        /\ kfs' = kfs \cup {<<run, l, P.id, t[1], t[2]>> : t \in r.k}
-       /\ UNCHANGED <<P, summ, run>>
+       /\ UNCHANGED <<summ, run>>
        /\ (l < Len(Rec) \/ Finish(viol', kfs', summ))
 
 Spec == Init /\ [][Next]_vars
